@@ -43,8 +43,13 @@ fn log() -> &'static Arc<Log> {
         let l = Arc::new(Log { recs: Mutex::new(Vec::new()), cv: Condvar::new() });
         let l2 = l.clone();
         verif::set_sink(Some(Arc::new(move |port, rec| {
+            let kind = hold_kind(&rec);
             l2.recs.lock().unwrap().push((port, rec));
             l2.cv.notify_all();
+            // the harness may hold the transport thread at this record (see `TGate`)
+            if kind != 0 {
+                tgate().on_record(kind);
+            }
         })));
         l
     })
@@ -72,12 +77,88 @@ impl Log {
 }
 
 // ---------------------------------------------------------------------------------------------
+// holding the transport thread at a trace record.  The hook's sink runs ON the transport thread, so a sink
+// that blocks parks that thread exactly at the program point of the record: `Idle` = about to poll,
+// `Wake` = poll returned for the waker (wake-up consumed) and the read loop has not started,
+// `Recv` = one message taken from the channel.  With mask 0 (the default) nothing is ever held.
+
+const HOLD_IDLE: u8 = 1;
+const HOLD_WAKE: u8 = 2;
+const HOLD_RECV: u8 = 4;
+
+fn hold_kind(r: &Record) -> u8 {
+    match r {
+        Record::Idle => HOLD_IDLE,
+        Record::Wake => HOLD_WAKE,
+        Record::Recv => HOLD_RECV,
+        _ => 0,
+    }
+}
+
+struct TG {
+    mask: u8,
+    parked: Option<u8>,
+    epoch: u64,
+}
+
+struct TGate {
+    st: Mutex<TG>,
+    cv: Condvar,
+}
+
+fn tgate() -> &'static TGate {
+    static G: OnceLock<TGate> = OnceLock::new();
+    G.get_or_init(|| TGate { st: Mutex::new(TG { mask: 0, parked: None, epoch: 0 }), cv: Condvar::new() })
+}
+
+impl TGate {
+    /// called by the sink on the transport thread
+    fn on_record(&self, kind: u8) {
+        let mut st = self.st.lock().unwrap();
+        if st.mask & kind == 0 {
+            return;
+        }
+        st.parked = Some(kind);
+        self.cv.notify_all();
+        let e = st.epoch;
+        while st.epoch == e {
+            st = self.cv.wait(st).unwrap();
+        }
+    }
+    fn set_mask(&self, mask: u8) {
+        self.st.lock().unwrap().mask = mask;
+    }
+    /// lets a parked transport thread go on, holding it next at a record of `mask`
+    fn release(&self, mask: u8) {
+        let mut st = self.st.lock().unwrap();
+        st.mask = mask;
+        st.parked = None;
+        st.epoch += 1;
+        self.cv.notify_all();
+    }
+    fn wait_parked(&self, timeout: Duration) -> Option<u8> {
+        let deadline = Instant::now() + timeout;
+        let mut st = self.st.lock().unwrap();
+        loop {
+            if let Some(k) = st.parked {
+                return Some(k);
+            }
+            let now = Instant::now();
+            if now >= deadline {
+                return None;
+            }
+            st = self.cv.wait_timeout(st, deadline - now).unwrap().0;
+        }
+    }
+}
+
+// ---------------------------------------------------------------------------------------------
 // independent varint / protobuf reader (from proto/event.proto)
 
 #[derive(Debug, Clone, PartialEq)]
 enum Ev {
     Meta { name: String, ty: u64, unit: Option<String>, desc: Option<String> },
-    Metric { name: String, labels: BTreeMap<String, String>, op: u32, bits: u64, has_ts: bool },
+    Metric { name: String, labels: BTreeMap<String, String>, op: u32, bits: u64, has_ts: bool, secs: u64 },
 }
 
 struct Rd<'a> {
@@ -155,6 +236,7 @@ fn dec_metric(b: &[u8]) -> Result<Ev, String> {
     let mut labels = BTreeMap::new();
     let mut op: Option<(u32, u64)> = None;
     let mut has_ts = false;
+    let mut secs = 0u64;
     while !r.done() {
         match r.tag()? {
             (1, 2) => name = r.string()?,
@@ -162,7 +244,8 @@ fn dec_metric(b: &[u8]) -> Result<Ev, String> {
                 let mut t = Rd { b: r.bytes()?, p: 0 };
                 while !t.done() {
                     match t.tag()? {
-                        (1, 0) | (2, 0) => {
+                        (1, 0) => secs = t.varint()?,
+                        (2, 0) => {
                             t.varint()?;
                         }
                         (f, w) => return Err(format!("Timestamp: unexpected field {} wire type {}", f, w)),
@@ -198,7 +281,7 @@ fn dec_metric(b: &[u8]) -> Result<Ev, String> {
         }
     }
     let (op, bits) = op.ok_or("Metric without operation")?;
-    Ok(Ev::Metric { name, labels, op, bits, has_ts })
+    Ok(Ev::Metric { name, labels, op, bits, has_ts, secs })
 }
 
 /// one frame body (without the length prefix) → event
@@ -257,11 +340,46 @@ struct Item {
     /// proto field number of the operation: 4 inc counter, 5 set counter, 6 inc gauge, 7 dec gauge, 8 set gauge, 9 histogram
     op: u32,
     bits: u64,
+    /// emitted through long-lived handle #j (registered once, possibly before the first client connected or
+    /// after the last one left) instead of a handle registered for this emission
+    held: Option<usize>,
+}
+
+const NHELD: usize = 3;
+
+#[derive(Clone)]
+enum Held {
+    C(metrics::Counter),
+    G(metrics::Gauge),
+    H(metrics::Histogram),
+}
+
+fn held_key(j: usize) -> Key {
+    Key::from_parts(format!("__held{}", j), vec![Label::new("h", j.to_string())])
+}
+
+fn held_item(j: usize, serial: u64) -> Item {
+    let v = 1_000_000 + serial;
+    let (op, bits) = match j % 3 {
+        0 => (4, v),
+        1 => (8, (v as f64).to_bits()),
+        _ => (9, (v as f64).to_bits()),
+    };
+    Item { name: format!("__held{}", j), labels: vec![("h".to_string(), j.to_string())], op, bits, held: Some(j) }
 }
 
 #[derive(Debug, Clone)]
 enum Step {
     Connect { staller: bool },
+    /// several connections completed in the kernel while the transport thread is held before its poll, so
+    /// that ONE listener event makes the accept loop run more than once
+    ConnectMany { stallers: Vec<bool> },
+    /// the client shuts down its sending half (FIN) and keeps reading
+    HalfClose { c: usize },
+    /// the client sends `n` bytes to the exporter (which never reads) and keeps reading
+    Send { c: usize, n: usize },
+    /// register long-lived handle #j now (whatever the gate is at this moment)
+    RegisterHeld { j: usize },
     Describe { kind: u32, name: String, unit: Option<usize>, desc: String },
     Emit { items: Vec<Item> },
     Burst { a: Vec<Item>, b: Vec<Item> },
@@ -281,13 +399,15 @@ struct Gen {
     names: Vec<String>,
     lkeys: Vec<String>,
     big: bool,
+    /// some emissions of this script go through long-lived handles
+    use_held: bool,
 }
 
 impl Gen {
     fn new(r: &mut Rng) -> Gen {
         let names = (0..r.range(2, 5)).map(|_| wild_string(r, false)).collect();
         let lkeys = (0..4).map(|i| if r.chance(1, 2) { wild_string(r, false) + &i.to_string() } else { format!("k{}", i) }).collect();
-        Gen { next_id: 0, names, lkeys, big: false }
+        Gen { next_id: 0, names, lkeys, big: false, use_held: false }
     }
     fn value(&self, r: &mut Rng, op: u32) -> u64 {
         if op <= 5 {
@@ -300,6 +420,9 @@ impl Gen {
     fn item(&mut self, r: &mut Rng) -> Item {
         let id = self.next_id;
         self.next_id += 1;
+        if self.use_held && !self.big && r.chance(1, 3) {
+            return held_item(r.below(NHELD), id);
+        }
         let mut name = r.pick(&self.names).clone();
         let mut labels: Vec<(String, String)> = vec![];
         let mut keys: Vec<&String> = self.lkeys.iter().collect();
@@ -317,7 +440,7 @@ impl Gen {
             labels.push(("pad".to_string(), "x".repeat(r.range(900, 3000))));
         }
         let op = r.range(4, 9) as u32;
-        Item { name, labels, op, bits: self.value(r, op) }
+        Item { name, labels, op, bits: self.value(r, op), held: None }
     }
     fn items(&mut self, r: &mut Rng, lo: usize, hi: usize) -> Vec<Item> {
         (0..r.range(lo, hi)).map(|_| self.item(r)).collect()
@@ -347,6 +470,15 @@ fn gen_script(r: &mut Rng, storm: bool) -> Vec<Step> {
     for _ in 0..r.below(3) {
         s.push(describe(r));
     }
+    // long-lived handles: some registered while no client has ever connected (gate closed), some later
+    g.use_held = r.chance(1, 2);
+    if g.use_held {
+        for j in 0..NHELD {
+            if r.chance(1, 2) {
+                s.push(Step::RegisterHeld { j });
+            }
+        }
+    }
     s.push(Step::Connect { staller: storm || r.chance(1, 4) });
     nclients += 1;
     if r.chance(3, 4) {
@@ -355,7 +487,17 @@ fn gen_script(r: &mut Rng, storm: bool) -> Vec<Step> {
     }
     let n = r.range(4, 14);
     for _ in 0..n {
-        match r.weighted(&[2, 2, 6, 3, 2, 2, 5, 1, 1]) {
+        match r.weighted(&[2, 2, 6, 3, 2, 2, 5, 1, 1, 2, 2, 1, 1]) {
+            9 => s.push(Step::HalfClose { c: r.below(nclients) }),
+            10 => s.push(Step::Send { c: r.below(nclients), n: *r.pick(&[1usize, 1, 7, 300, 5000]) }),
+            11 => {
+                if nclients + 3 <= 7 {
+                    let k = r.range(2, 3);
+                    s.push(Step::ConnectMany { stallers: (0..k).map(|_| r.chance(1, 4)).collect() });
+                    nclients += k;
+                }
+            }
+            12 => s.push(Step::RegisterHeld { j: r.below(NHELD) }),
             0 => {
                 if nclients < 5 {
                     s.push(Step::Connect { staller: r.chance(1, 3) });
@@ -400,7 +542,7 @@ fn gen_script(r: &mut Rng, storm: bool) -> Vec<Step> {
 }
 
 fn item(id: u64, name: &str) -> Item {
-    Item { name: name.to_string(), labels: vec![("#".to_string(), id.to_string())], op: 4, bits: id + 1 }
+    Item { name: name.to_string(), labels: vec![("#".to_string(), id.to_string())], op: 4, bits: id + 1, held: None }
 }
 
 /// hand-picked histories: the three design-round findings and the edges of the buffer rule
@@ -481,6 +623,57 @@ fn corpus_raw(d: &dyn Fn(&str) -> Step, em: &dyn Fn(std::ops::Range<u64>) -> Ste
                 em(4..5),
             ],
         ),
+        (
+            "half-closed-reader-keeps-receiving",
+            Some(8),
+            vec![Step::Connect { staller: false }, Step::Connect { staller: false }, em(0..1), Step::HalfClose { c: 0 }, Step::Pause { ms: 30 }, em(1..3), em(3..4)],
+        ),
+        ("lone-half-closed-reader", Some(1024), vec![Step::Connect { staller: false }, Step::HalfClose { c: 0 }, Step::Pause { ms: 30 }, em(0..2), em(2..3)]),
+        (
+            "client-talks-to-the-exporter",
+            Some(8),
+            vec![
+                Step::Connect { staller: false },
+                Step::Connect { staller: false },
+                Step::Send { c: 0, n: 1 },
+                Step::Pause { ms: 30 },
+                em(0..2),
+                Step::Send { c: 0, n: 300 },
+                Step::Pause { ms: 10 },
+                em(2..3),
+            ],
+        ),
+        ("three-connections-one-listener-event", Some(8), vec![d("m"), Step::ConnectMany { stallers: vec![false, false, false] }, em(0..3), Step::ConnectMany { stallers: vec![false, true] }, em(3..5)]),
+        (
+            "handles-outlive-gate-transitions",
+            Some(8),
+            vec![
+                Step::RegisterHeld { j: 0 },
+                Step::RegisterHeld { j: 1 },
+                Step::Connect { staller: false },
+                Step::Emit { items: vec![held_item(0, 0), held_item(1, 1), held_item(2, 2)] },
+                Step::Close { c: 0 },
+                Step::Pause { ms: 30 },
+                Step::Emit { items: vec![held_item(0, 3)] },
+                Step::Emit { items: vec![held_item(1, 4)] },
+                Step::Connect { staller: false },
+                Step::Emit { items: vec![held_item(0, 5), held_item(1, 6), held_item(2, 7)] },
+            ],
+        ),
+        (
+            // a frame whose length prefix is a 3-byte varint (>= 16384), written in several pieces to a slow client
+            "frame-longer-than-16k",
+            Some(8),
+            vec![
+                Step::Connect { staller: false },
+                Step::Connect { staller: true },
+                Step::Inject { c: 0, faults: vec![Fault::Accept(2), Fault::Accept(1), Fault::WouldBlock] },
+                Step::Emit { items: vec![Item { name: "big".to_string(), labels: vec![("#".to_string(), "100".to_string()), ("pad".to_string(), "y".repeat(20_000))], op: 4, bits: 7, held: None }] },
+                em(0..2),
+                Step::Unstall { c: 1 },
+                em(2..3),
+            ],
+        ),
         ("large-buffer", Some(1 << 16), vec![d("m"), Step::Connect { staller: false }, Step::Connect { staller: true }, em(0..40), Step::Close { c: 1 }, em(40..60)]),
     ]
 }
@@ -502,6 +695,8 @@ struct Client {
     token: usize,
     data: Arc<Mutex<Vec<u8>>>,
     eof: Arc<AtomicBool>,
+    /// the client has sent bytes to the exporter
+    talked: Arc<AtomicBool>,
     reader: Option<std::thread::JoinHandle<()>>,
     /// script step at which connect() started / the accept snapshot was seen / close was called
     connect_step: usize,
@@ -540,6 +735,7 @@ fn spawn_reader(c: &mut Client) {
     };
     let data = c.data.clone();
     let eof = c.eof.clone();
+    let talked = c.talked.clone();
     c.reader = Some(std::thread::spawn(move || {
         let _ = s.set_read_timeout(Some(Duration::from_millis(200)));
         let deadline = Instant::now() + Duration::from_secs(40);
@@ -552,7 +748,14 @@ fn spawn_reader(c: &mut Client) {
                 }
                 Ok(n) => data.lock().unwrap().extend_from_slice(&buf[..n]),
                 Err(e) if matches!(e.kind(), std::io::ErrorKind::WouldBlock | std::io::ErrorKind::TimedOut | std::io::ErrorKind::Interrupted) => {}
-                Err(_) => return,
+                Err(_) => {
+                    // connection reset: the exporter closed while bytes this client SENT were still unread
+                    // (only clients that talk to the exporter); everything written to us before has been read
+                    if talked.load(Ordering::SeqCst) {
+                        eof.store(true, Ordering::SeqCst);
+                    }
+                    return;
+                }
             }
         }
     }));
@@ -563,8 +766,37 @@ fn key_of(it: &Item) -> Key {
     Key::from_parts(it.name.clone(), labels)
 }
 
-fn apply(rec: &TcpRecorder, it: &Item) {
-    static MD: Metadata<'static> = Metadata::new("c11", Level::INFO, None);
+static MD: Metadata<'static> = Metadata::new("c11", Level::INFO, None);
+
+fn register_held(rec: &TcpRecorder, held: &mut Vec<Option<Held>>, j: usize) {
+    if held[j].is_none() {
+        let key = held_key(j);
+        held[j] = Some(match j % 3 {
+            0 => Held::C(rec.register_counter(&key, &MD)),
+            1 => Held::G(rec.register_gauge(&key, &MD)),
+            _ => Held::H(rec.register_histogram(&key, &MD)),
+        });
+    }
+}
+
+/// every long-lived handle the items need exists (registered now if the script did not do it earlier)
+fn ensure_held(rec: &TcpRecorder, held: &mut Vec<Option<Held>>, items: &[Item]) {
+    for it in items {
+        if let Some(j) = it.held {
+            register_held(rec, held, j);
+        }
+    }
+}
+
+fn apply(rec: &TcpRecorder, held: &[Option<Held>], it: &Item) {
+    if let Some(j) = it.held {
+        match held[j].as_ref().expect("held handle registered") {
+            Held::C(h) => h.increment(it.bits),
+            Held::G(h) => h.set(f64::from_bits(it.bits)),
+            Held::H(h) => h.record(f64::from_bits(it.bits)),
+        }
+        return;
+    }
     let key = key_of(it);
     match it.op {
         4 => rec.register_counter(&key, &MD).increment(it.bits),
@@ -667,9 +899,68 @@ fn fail(out: &mut Out, script: &str, what: &str, detail: String) {
     out.oracle_fail(what, &format!("{} || script: {}", detail, script));
 }
 
+fn connect_client(port: u16, staller: bool) -> Result<(TcpStream, u16), String> {
+    let sock = socket2::Socket::new(socket2::Domain::IPV4, socket2::Type::STREAM, None).unwrap();
+    if staller {
+        // small receive buffer and a small MSS (which keeps the exporter's send buffer from being
+        // auto-tuned to megabytes on loopback): about 20 KB unread and the exporter sees WouldBlock
+        let _ = sock.set_recv_buffer_size(2048);
+        let _ = sock.set_mss(256);
+    }
+    let dst: SocketAddr = ([127, 0, 0, 1], port).into();
+    sock.connect_timeout(&dst.into(), Duration::from_secs(2)).map_err(|e| format!("connect to the exporter failed: {}", e))?;
+    let stream: TcpStream = sock.into();
+    let local_port = stream.local_addr().map(|a| a.port()).unwrap_or(0);
+    Ok((stream, local_port))
+}
+
+/// accepted = Accept record for our port followed by the snapshot taken after registration → (token, log position)
+fn wait_accept(log: &Log, port: u16, local_port: u16) -> Option<(usize, usize)> {
+    log.wait(WAIT, |recs| {
+        let mut tok = None;
+        for (i, (p, r)) in recs.iter().enumerate() {
+            if *p != port {
+                continue;
+            }
+            match r {
+                Record::Accept { token, peer } if peer.map(|a| a.port()) == Some(local_port) => tok = Some(*token),
+                Record::Snapshot { .. } if tok.is_some() => return Some((tok.unwrap(), i)),
+                _ => {}
+            }
+        }
+        None
+    })
+}
+
+fn new_client(staller: bool, stream: TcpStream, local_port: u16, token: usize, pos: usize, si: usize, last_settle: usize) -> Client {
+    let mut c = Client {
+        staller,
+        stream: Some(stream),
+        local_port,
+        token,
+        data: Arc::new(Mutex::new(vec![])),
+        eof: Arc::new(AtomicBool::new(false)),
+        talked: Arc::new(AtomicBool::new(false)),
+        reader: None,
+        connect_step: si,
+        floor_step: last_settle,
+        accepted_step: si,
+        accepted_pos: pos,
+        closed_step: usize::MAX,
+        closed_pos: usize::MAX,
+        end: End::Open,
+    };
+    if !staller {
+        spawn_reader(&mut c);
+    }
+    c
+}
+
 fn session(tag: &str, buffer: Option<usize>, script: &[Step], out: &mut Out) {
     out.case(tag);
     let log = log();
+    let unix_now = || std::time::SystemTime::now().duration_since(std::time::UNIX_EPOCH).map(|d| d.as_secs()).unwrap_or(0);
+    let t_session_start = unix_now();
     // sessions run one after the other and the previous transport thread has been stopped
     log.recs.lock().unwrap().clear();
     let script_txt = {
@@ -712,7 +1003,7 @@ fn session(tag: &str, buffer: Option<usize>, script: &[Step], out: &mut Out) {
         let mut got = 0;
         if let Ok(mut s) = probe {
             std::thread::sleep(Duration::from_millis(100));
-            apply(&rec, &item(0, "probe"));
+            apply(&rec, &[], &item(0, "probe"));
             let _ = s.set_read_timeout(Some(Duration::from_millis(500)));
             let mut b = [0u8; 256];
             got = s.read(&mut b).unwrap_or(0);
@@ -734,6 +1025,7 @@ fn session(tag: &str, buffer: Option<usize>, script: &[Step], out: &mut Out) {
     let mut hung: Option<String> = None;
     let mut last_settle = 0usize;
     let emit_lock = Arc::new(Mutex::new(()));
+    let mut held: Vec<Option<Held>> = vec![None; NHELD];
 
     // -- helpers as closures would fight the borrow checker; plain loops below
     let nsteps = script.len();
@@ -751,62 +1043,91 @@ fn session(tag: &str, buffer: Option<usize>, script: &[Step], out: &mut Out) {
             }
             Step::Connect { staller } => {
                 out.count(if *staller { "step connect staller" } else { "step connect reader" });
-                let sock = socket2::Socket::new(socket2::Domain::IPV4, socket2::Type::STREAM, None).unwrap();
-                if *staller {
-                    // small receive buffer and a small MSS (which keeps the exporter's send buffer from being
-                    // auto-tuned to megabytes on loopback): about 20 KB unread and the exporter sees WouldBlock
-                    let _ = sock.set_recv_buffer_size(2048);
-                    let _ = sock.set_mss(256);
-                }
-                let dst: SocketAddr = ([127, 0, 0, 1], port).into();
-                if let Err(e) = sock.connect_timeout(&dst.into(), Duration::from_secs(2)) {
-                    hung = Some(format!("connect to the exporter failed: {}", e));
-                    break;
-                }
-                let stream: TcpStream = sock.into();
-                let local_port = stream.local_addr().map(|a| a.port()).unwrap_or(0);
-                // accepted = Accept record for our port followed by the snapshot taken after registration
-                let acc = log.wait(WAIT, |recs| {
-                    let mut tok = None;
-                    for (i, (p, r)) in recs.iter().enumerate() {
-                        if *p != port {
-                            continue;
-                        }
-                        match r {
-                            Record::Accept { token, peer } if peer.map(|a| a.port()) == Some(local_port) => tok = Some(*token),
-                            Record::Snapshot { .. } if tok.is_some() => return Some((tok.unwrap(), i)),
-                            _ => {}
-                        }
+                let (stream, local_port) = match connect_client(port, *staller) {
+                    Ok(x) => x,
+                    Err(e) => {
+                        hung = Some(e);
+                        break;
                     }
-                    None
-                });
-                let (token, pos) = match acc {
+                };
+                let (token, pos) = match wait_accept(log, port, local_port) {
                     Some(x) => x,
                     None => {
                         hung = Some(format!("the exporter did not accept connection #{} within {:?}", clients.len(), WAIT));
                         break;
                     }
                 };
-                let mut c = Client {
-                    staller: *staller,
-                    stream: Some(stream),
-                    local_port,
-                    token,
-                    data: Arc::new(Mutex::new(vec![])),
-                    eof: Arc::new(AtomicBool::new(false)),
-                    reader: None,
-                    connect_step: si,
-                    floor_step: last_settle,
-                    accepted_step: si,
-                    accepted_pos: pos,
-                    closed_step: usize::MAX,
-                    closed_pos: usize::MAX,
-                    end: End::Open,
-                };
-                if !*staller {
-                    spawn_reader(&mut c);
+                clients.push(new_client(*staller, stream, local_port, token, pos, si, last_settle));
+            }
+            Step::ConnectMany { stallers } => {
+                out.count("step connect several in one listener event");
+                // hold the transport thread before its next poll, let the kernel complete the other
+                // handshakes, then let it go: one LISTENER event, the accept loop runs once per connection
+                let gate = tgate();
+                gate.set_mask(HOLD_IDLE);
+                let mut socks = vec![];
+                let mut failed = None;
+                for (k, st) in stallers.iter().enumerate() {
+                    match connect_client(port, *st) {
+                        Ok(x) => socks.push((*st, x.0, x.1)),
+                        Err(e) => {
+                            failed = Some(e);
+                            break;
+                        }
+                    }
+                    if k == 0 {
+                        // the first connection makes the thread run one round of its loop; it parks at `Idle`
+                        // (with the first connection accepted or still in the backlog, either is fine)
+                        if gate.wait_parked(WAIT).is_none() {
+                            failed = Some(format!("the transport thread did not come back to its poll within {:?}", WAIT));
+                            break;
+                        }
+                    }
                 }
-                clients.push(c);
+                gate.release(0);
+                if let Some(e) = failed {
+                    hung = Some(e);
+                    break;
+                }
+                for (st, stream, local_port) in socks {
+                    match wait_accept(log, port, local_port) {
+                        Some((token, pos)) => clients.push(new_client(st, stream, local_port, token, pos, si, last_settle)),
+                        None => {
+                            hung = Some(format!("the exporter did not accept connection #{} (one of {} made at once) within {:?}", clients.len(), stallers.len(), WAIT));
+                            break;
+                        }
+                    }
+                }
+            }
+            Step::HalfClose { c } | Step::Send { c, .. } => {
+                if clients.is_empty() {
+                    continue;
+                }
+                let k = c % clients.len();
+                let cl = &mut clients[k];
+                if cl.end != End::Open {
+                    continue;
+                }
+                if let Some(s) = cl.stream.as_ref() {
+                    match step {
+                        Step::HalfClose { .. } => {
+                            out.count("step half-close (client keeps reading)");
+                            let _ = s.shutdown(std::net::Shutdown::Write);
+                        }
+                        Step::Send { n, .. } => {
+                            out.count("step client sends bytes to the exporter");
+                            cl.talked.store(true, Ordering::SeqCst);
+                            let _ = s.set_write_timeout(Some(Duration::from_millis(200)));
+                            let mut w: &TcpStream = s;
+                            let _ = std::io::Write::write(&mut w, &vec![0x2au8; *n]);
+                        }
+                        _ => {}
+                    }
+                }
+            }
+            Step::RegisterHeld { j } => {
+                out.count("step register long-lived handle");
+                register_held(&rec, &mut held, *j);
             }
             Step::Describe { kind, name, unit, desc } => {
                 out.count("step describe");
@@ -834,12 +1155,16 @@ fn session(tag: &str, buffer: Option<usize>, script: &[Step], out: &mut Out) {
             }
             Step::Emit { items } => {
                 out.count("step emit");
+                ensure_held(&rec, &mut held, items);
                 for it in items {
                     if !pace(&rec, buffer, 1) {
                         hung = Some("the channel to the transport thread stays full (emit)".into());
                         break;
                     }
-                    apply(&rec, it);
+                    if it.held.is_some() {
+                        out.count("emitted through a long-lived handle");
+                    }
+                    apply(&rec, &held, it);
                     emissions.push(Emission { step: si, thread: 0, seq: seqs[0], item: it.clone() });
                     seqs[0] += 1;
                     out.count("emitted");
@@ -848,9 +1173,12 @@ fn session(tag: &str, buffer: Option<usize>, script: &[Step], out: &mut Out) {
             Step::Burst { a, b } => {
                 out.count("step burst (2 threads)");
                 let stuck = Arc::new(AtomicBool::new(false));
+                ensure_held(&rec, &mut held, a);
+                ensure_held(&rec, &mut held, b);
                 std::thread::scope(|sc| {
                     for list in [a, b] {
                         let rec = rec.clone();
+                        let held = held.clone();
                         let stuck = stuck.clone();
                         let lock = emit_lock.clone();
                         sc.spawn(move || {
@@ -862,7 +1190,7 @@ fn session(tag: &str, buffer: Option<usize>, script: &[Step], out: &mut Out) {
                                     stuck.store(true, Ordering::SeqCst);
                                     return;
                                 }
-                                apply(&rec, it);
+                                apply(&rec, &held, it);
                             }
                         });
                     }
@@ -931,7 +1259,7 @@ fn session(tag: &str, buffer: Option<usize>, script: &[Step], out: &mut Out) {
     }
 
     // -- flush: every open client reads, one last metric, wait until each open client's queue is empty
-    let sentinel = Item { name: format!("__last__{}", port), labels: vec![], op: 5, bits: 42 };
+    let sentinel = Item { name: format!("__last__{}", port), labels: vec![], op: 5, bits: 42, held: None };
     let mut sentinel_sent = false;
     if hung.is_none() && !settle(&rec, log, port) {
         hung = Some(format!("the transport thread did not finish handling its events within {:?}", WAIT));
@@ -948,7 +1276,7 @@ fn session(tag: &str, buffer: Option<usize>, script: &[Step], out: &mut Out) {
             if !pace(&rec, buffer, 1) {
                 hung = Some("the channel to the transport thread stays full (final metric)".into());
             } else {
-                apply(&rec, &sentinel);
+                apply(&rec, &[], &sentinel);
                 emissions.push(Emission { step: nsteps, thread: 0, seq: seqs[0], item: sentinel.clone() });
                 sentinel_sent = true;
                 let body_mark = sentinel.name.as_bytes().to_vec();
@@ -984,6 +1312,28 @@ fn session(tag: &str, buffer: Option<usize>, script: &[Step], out: &mut Out) {
         }
     }
 
+    // -- clients that sent bytes to the exporter get a reset instead of a FIN when the exporter closes (unread
+    //    inbound data): let their readers take everything that was written to them first
+    if hung.is_none() && clients.iter().any(|c| c.end == End::Open && c.talked.load(Ordering::SeqCst)) {
+        let written: HashMap<usize, usize> = {
+            let g = log.recs.lock().unwrap();
+            let mut m = HashMap::new();
+            for (p, r) in g.iter() {
+                if let (true, Record::WriteResult { token, outcome: WriteOutcome::Ok(n), .. }) = (*p == port, r) {
+                    *m.entry(*token).or_insert(0) += *n;
+                }
+            }
+            m
+        };
+        let deadline = Instant::now() + WAIT;
+        for c in clients.iter().filter(|c| c.end == End::Open && c.talked.load(Ordering::SeqCst)) {
+            let want = written.get(&c.token).copied().unwrap_or(0);
+            while c.data.lock().unwrap().len() < want && Instant::now() < deadline {
+                std::thread::sleep(Duration::from_millis(1));
+            }
+        }
+    }
+
     // -- stop the transport thread (hook) and let every reader run into EOF
     verif::request_stop(port);
     rec.describe_counter(KeyName::from("__stop__"), None, SharedString::from(""));
@@ -1008,6 +1358,7 @@ fn session(tag: &str, buffer: Option<usize>, script: &[Step], out: &mut Out) {
             }
         }
     }
+    let t_session_end = unix_now();
     let trace: Vec<Record> = {
         let g = log.recs.lock().unwrap();
         mine(&g)
@@ -1044,6 +1395,7 @@ fn session(tag: &str, buffer: Option<usize>, script: &[Step], out: &mut Out) {
     let mut accepts = 0usize;
     let mut removed = 0usize;
     let mut had_drop: HashSet<usize> = HashSet::new();
+    let mut disconnected: HashSet<usize> = HashSet::new();
     let mut gate_fail: Option<String> = None;
     let mut malformed: Option<String> = None;
     let mut nonfull = 0usize;
@@ -1206,7 +1558,8 @@ fn session(tag: &str, buffer: Option<usize>, script: &[Step], out: &mut Out) {
                 Cur::Writable { d, .. } => d.end = Some((*done, *wbuf, *msgs)),
                 _ => {}
             },
-            Record::Disconnect { .. } => {
+            Record::Disconnect { token } => {
+                disconnected.insert(*token);
                 removed += 1;
                 out.count("client removed by the exporter");
             }
@@ -1215,7 +1568,8 @@ fn session(tag: &str, buffer: Option<usize>, script: &[Step], out: &mut Out) {
     // bytes each socket accepted: model vs what the client really read (EOF-drained) / the trace (others)
     for c in clients.iter() {
         let read = c.data.lock().unwrap().clone();
-        let drained = c.end == End::Open && c.eof.load(Ordering::SeqCst) && stopped;
+        let cut_by_reset = c.talked.load(Ordering::SeqCst) && read.len() < accepted_bytes.get(&c.token).map_or(0, |b| b.len());
+        let drained = c.end == End::Open && c.eof.load(Ordering::SeqCst) && stopped && !cut_by_reset;
         let imp = if drained { read.clone() } else { accepted_bytes.get(&c.token).cloned().unwrap_or_default() };
         out.op(&format!("tcp received {}", c.token), &hex(&imp));
     }
@@ -1235,22 +1589,39 @@ fn session(tag: &str, buffer: Option<usize>, script: &[Step], out: &mut Out) {
         fail(out, &script_txt, "gate out of step with the connected clients", g.clone());
     }
     // identity → emission
-    let ident = |name: &str, labels: &BTreeMap<String, String>| -> String {
+    // (emissions through a long-lived handle share their key; the value tells them apart)
+    let ident = |name: &str, labels: &BTreeMap<String, String>, bits: u64| -> String {
         let mut s = hexs(name);
         for (k, v) in labels {
             s.push_str(&format!(" {}={}", hexs(k), hexs(v)));
+        }
+        if name.starts_with("__held") {
+            s.push_str(&format!(" bits={:016x}", bits));
         }
         s
     };
     let mut by_ident: HashMap<String, usize> = HashMap::new();
     for (i, e) in emissions.iter().enumerate() {
         let labels: BTreeMap<String, String> = e.item.labels.iter().cloned().collect();
-        by_ident.insert(ident(&e.item.name, &labels), i);
+        by_ident.insert(ident(&e.item.name, &labels, e.item.bits), i);
+    }
+    // a client the harness never closed (it reads, or will read at the end; it may have shut down its sending
+    // half or sent bytes) must never be removed by the exporter
+    for (ci, c) in clients.iter().enumerate() {
+        if c.end == End::Open && disconnected.contains(&c.token) {
+            fail(
+                out,
+                &script_txt,
+                "exporter dropped a connected client",
+                format!("client #{} (token {}) was never closed or reset by the harness (half-closed/sent bytes: {}), yet the exporter removed it from its client table", ci, c.token, c.talked.load(Ordering::SeqCst)),
+            );
+        }
     }
     for (ci, c) in clients.iter().enumerate() {
         let read = c.data.lock().unwrap().clone();
         let taken = accepted_bytes.get(&c.token).cloned().unwrap_or_default();
-        let drained = c.end == End::Open && c.eof.load(Ordering::SeqCst) && stopped;
+        let cut_by_reset = c.talked.load(Ordering::SeqCst) && read.len() < taken.len();
+        let drained = c.end == End::Open && c.eof.load(Ordering::SeqCst) && stopped && !cut_by_reset;
         let who = format!("client #{} (token {}, {}{:?})", ci, c.token, if c.staller { "staller, " } else { "reader, " }, c.end);
         // what the client read is what the socket took (prefix while the client left early)
         if drained && read != taken {
@@ -1312,8 +1683,12 @@ fn session(tag: &str, buffer: Option<usize>, script: &[Step], out: &mut Out) {
         let mut last_seq = [None::<usize>; 3];
         let mut last_step = 0usize;
         for (fi, e) in evs.iter().enumerate() {
-            if let Ev::Metric { name, labels, op, bits, has_ts } = e {
-                let id = ident(name, labels);
+            if let Ev::Metric { name, labels, op, bits, has_ts, secs } = e {
+                // every frame carries the wall-clock time at which it was encoded
+                if *has_ts && (*secs + 5 < t_session_start || *secs > t_session_end + 5) {
+                    fail(out, &script_txt, "metric not intact", format!("{}: frame #{} ({:?}) carries timestamp {} s, the session ran from {} s to {} s (unix time)", who, fi, name, secs, t_session_start, t_session_end));
+                }
+                let id = ident(name, labels, *bits);
                 let i = match by_ident.get(&id) {
                     Some(i) => *i,
                     None => {
@@ -1370,7 +1745,592 @@ fn session(tag: &str, buffer: Option<usize>, script: &[Step], out: &mut Out) {
     }
 }
 
+// ---------------------------------------------------------------------------------------------
+// producer / transport interleavings ("race" cases, model `tcpq` = Model/TcpProd.lean)
+//
+// One real exporter per configuration.  Emitting threads run the real `Handle::increment` →
+// `State::push_metric` and park at their yield points:
+//   `tcp:should_send` (hook, before the gate load), `clone` (allocator trap inside `key.clone()`, i.e. after
+//   the gate load and before `try_send`), `tcp:wake` (hook, before `waker.wake()`);
+// the transport thread parks at its trace records `Idle` / `Wake` / `Recv` (see `TGate`).  A schedule (list of
+// thread ids) grants one step at a time; the same schedule is replayed on the Lean step machine and every
+// step's observation (yield point reached, channel length, wake-up pending, batch fanned out) is compared.
+// Oracle: when nothing can move any more (all emitters returned, transport back at its poll, no wake-up
+// pending) the channel must be empty — otherwise a metric was enqueued and nobody will ever wake the
+// transport for it.  Before reporting, the transport thread is let run freely for `STUCK_WAIT`.
+
+const TRAP_LEN: usize = 1543;
+const STUCK_WAIT: Duration = Duration::from_secs(3);
+static CONFIRMED_STUCK: std::sync::atomic::AtomicUsize = std::sync::atomic::AtomicUsize::new(0);
+
+struct EmS {
+    at: Vec<Option<&'static str>>,
+    done: Vec<bool>,
+    grant: Vec<u64>,
+    /// `wake()` was called by a thread that is not a managed emitter (the transport's self-wake, a describe)
+    unmanaged_wake: bool,
+}
+
+struct EmCtl {
+    st: Mutex<EmS>,
+    cv: Condvar,
+}
+
+fn emctl() -> &'static EmCtl {
+    static C: OnceLock<EmCtl> = OnceLock::new();
+    C.get_or_init(|| EmCtl { st: Mutex::new(EmS { at: vec![], done: vec![], grant: vec![], unmanaged_wake: false }), cv: Condvar::new() })
+}
+
+thread_local! {
+    static EM_ID: std::cell::Cell<Option<usize>> = const { std::cell::Cell::new(None) };
+}
+
+fn em_park(id: &'static str) {
+    if !matches!(id, "tcp:should_send" | "tcp:wake" | "clone") {
+        return;
+    }
+    let i = match EM_ID.try_with(|c| c.get()).ok().flatten() {
+        Some(i) => i,
+        None => {
+            if id == "tcp:wake" {
+                emctl().st.lock().unwrap().unmanaged_wake = true;
+            }
+            return;
+        }
+    };
+    let c = emctl();
+    let mut st = c.st.lock().unwrap();
+    st.at[i] = Some(id);
+    c.cv.notify_all();
+    let g = st.grant[i];
+    while st.grant[i] == g {
+        st = c.cv.wait(st).unwrap();
+    }
+}
+
+fn em_trap() {
+    em_park("clone");
+}
+
+impl EmCtl {
+    fn reset(&self, n: usize) {
+        let mut st = self.st.lock().unwrap();
+        st.at = vec![None; n];
+        st.done = vec![false; n];
+        st.grant = vec![0; n];
+    }
+    fn take_unmanaged_wake(&self) -> bool {
+        std::mem::replace(&mut self.st.lock().unwrap().unmanaged_wake, false)
+    }
+    /// where emitter `i` is parked (`done` once it has returned from its last call)
+    fn pc(&self, i: usize) -> Option<&'static str> {
+        let st = self.st.lock().unwrap();
+        if st.done[i] {
+            Some("done")
+        } else {
+            st.at[i]
+        }
+    }
+    fn wait_parked(&self, i: usize) -> Option<&'static str> {
+        let deadline = Instant::now() + WAIT;
+        let mut st = self.st.lock().unwrap();
+        loop {
+            if st.done[i] {
+                return Some("done");
+            }
+            if let Some(p) = st.at[i] {
+                return Some(p);
+            }
+            let now = Instant::now();
+            if now >= deadline {
+                return None;
+            }
+            st = self.cv.wait_timeout(st, deadline - now).unwrap().0;
+        }
+    }
+    fn grant(&self, i: usize) -> Option<&'static str> {
+        {
+            let mut st = self.st.lock().unwrap();
+            st.at[i] = None;
+            st.grant[i] += 1;
+            self.cv.notify_all();
+        }
+        self.wait_parked(i)
+    }
+    fn finish(&self, i: usize) {
+        let mut st = self.st.lock().unwrap();
+        st.at[i] = None;
+        st.done[i] = true;
+        self.cv.notify_all();
+    }
+}
+
+fn race_key(id: u64) -> Key {
+    Key::from_parts("race", vec![Label::new("#", id.to_string()), Label::new("pad", "x".repeat(TRAP_LEN))])
+}
+
+fn race_ids(frames: &[Vec<u8>]) -> Vec<u64> {
+    let mut ids = vec![];
+    for f in frames {
+        if let (evs, 0, None) = dec_stream(f) {
+            for e in evs {
+                if let Ev::Metric { labels, .. } = e {
+                    if let Some(id) = labels.get("#").and_then(|s| s.parse().ok()) {
+                        ids.push(id);
+                    }
+                }
+            }
+        }
+    }
+    ids
+}
+
+fn show_ids(ids: &[u64]) -> String {
+    if ids.is_empty() {
+        "-".to_string()
+    } else {
+        ids.iter().map(|i| i.to_string()).collect::<Vec<_>>().join("/")
+    }
+}
+
+#[derive(Clone, Debug)]
+struct RaceCase {
+    tag: String,
+    /// metric ids per emitter
+    progs: Vec<Vec<u64>>,
+    /// thread ids: 0..n = emitters, n = transport
+    sched: Vec<usize>,
+}
+
+struct RaceExporter {
+    rec: Arc<TcpRecorder>,
+    port: u16,
+    cap: Option<usize>,
+    gate: bool,
+    /// the transport thread is inside its read loop (parked at `Wake` or `Recv`)
+    in_loop: bool,
+    /// shadow of the waker: `wake()` has been called since poll last returned for it (observed, not computed)
+    wake_pending: bool,
+    client: Option<Client>,
+    delivered_all: Vec<u64>,
+    broken: Option<String>,
+}
+
+impl RaceExporter {
+    fn start(cap: Option<usize>, gate: bool) -> Result<RaceExporter, String> {
+        let log = log();
+        log.recs.lock().unwrap().clear();
+        let (rec, port) = start_exporter(cap)?;
+        if log.wait(WAIT, |recs| if recs.iter().any(|(p, r)| *p == port && *r == Record::Start) { Some(()) } else { None }).is_none() {
+            return Err("the transport thread never entered its event loop".into());
+        }
+        let mut x = RaceExporter { rec: Arc::new(rec), port, cap, gate, in_loop: false, wake_pending: false, client: None, delivered_all: vec![], broken: None };
+        if gate {
+            let (stream, lp) = connect_client(port, false)?;
+            let (token, pos) = wait_accept(log, port, lp).ok_or("the exporter did not accept the reading client")?;
+            x.client = Some(new_client(false, stream, lp, token, pos, 0, 0));
+        }
+        x.sync()?;
+        Ok(x)
+    }
+
+    /// brings the transport thread to its `Idle` record with everything in the channel handled
+    fn sync(&mut self) -> Result<(), String> {
+        let gate = tgate();
+        let ctl = emctl();
+        gate.set_mask(HOLD_IDLE | HOLD_WAKE);
+        if gate.st.lock().unwrap().parked.is_some() {
+            gate.release(HOLD_IDLE | HOLD_WAKE);
+        }
+        ctl.take_unmanaged_wake();
+        self.rec.describe_counter(KeyName::from("__sync__"), None, SharedString::from(""));
+        // … poll returns for the waker (possibly after other events) …
+        let deadline = Instant::now() + WAIT;
+        loop {
+            match gate.wait_parked(deadline.saturating_duration_since(Instant::now())) {
+                Some(HOLD_WAKE) => break,
+                Some(_) => gate.release(HOLD_IDLE | HOLD_WAKE),
+                None => return Err("the transport thread did not react to a wake-up".into()),
+            }
+        }
+        ctl.take_unmanaged_wake();
+        // … and the read loop runs until the channel is empty (or the batch limit is hit: self-wake)
+        gate.release(HOLD_IDLE);
+        if gate.wait_parked(WAIT) != Some(HOLD_IDLE) {
+            return Err("the transport thread did not come back to its poll".into());
+        }
+        self.in_loop = false;
+        self.wake_pending = ctl.take_unmanaged_wake();
+        if self.cap != Some(0) && self.wake_pending {
+            // a full batch: go round again
+            return self.sync();
+        }
+        Ok(())
+    }
+
+    fn qlen(&self) -> usize {
+        self.rec.verif_queue_len()
+    }
+
+    fn tail(&self) -> String {
+        format!("q={} wp={}", self.qlen(), self.wake_pending as u8)
+    }
+
+    /// one step of the transport thread → what it did
+    fn t_step(&mut self) -> Result<String, String> {
+        let gate = tgate();
+        let ctl = emctl();
+        let log = log();
+        let all = HOLD_IDLE | HOLD_WAKE | HOLD_RECV;
+        if !self.in_loop {
+            if !self.wake_pending {
+                return Ok("blocked".into());
+            }
+            // parked at Idle: poll returns for the waker, possibly after rounds for other events
+            gate.release(all);
+            let deadline = Instant::now() + WAIT;
+            loop {
+                match gate.wait_parked(deadline.saturating_duration_since(Instant::now())) {
+                    Some(HOLD_WAKE) => break,
+                    Some(_) => gate.release(all),
+                    None => return Err("a wake-up is pending but poll did not return for the waker".into()),
+                }
+            }
+            self.wake_pending = false;
+            self.in_loop = true;
+            return Ok("woken".into());
+        }
+        let from = log.len();
+        gate.release(all);
+        match gate.wait_parked(WAIT) {
+            Some(HOLD_RECV) => Ok("recv".into()),
+            Some(HOLD_IDLE) => {
+                self.in_loop = false;
+                let sw = ctl.take_unmanaged_wake();
+                self.wake_pending |= sw;
+                let frames: Vec<Vec<u8>> = {
+                    let g = log.recs.lock().unwrap();
+                    g.iter().skip(from).filter(|(p, _)| *p == self.port).filter_map(|(_, r)| if let Record::Fanout { frames } = r { Some(frames.clone()) } else { None }).flatten().collect()
+                };
+                let ids = race_ids(&frames);
+                self.delivered_all.extend(ids.iter().copied());
+                Ok(format!("fanout:{}:sw{}", show_ids(&ids), sw as u8))
+            }
+            Some(k) => Err(format!("the transport thread parked at record kind {} inside its read loop", k)),
+            None => Err("the transport thread did not finish an iteration of its read loop".into()),
+        }
+    }
+
+    fn run_case(&mut self, case: &RaceCase, out: &mut Out) {
+        out.case(&case.tag);
+        let ctl = emctl();
+        let n = case.progs.len();
+        let script = format!("buffer_size={:?} gate={} emitters={:?} schedule={:?} (ids < {} are emitters, {} = transport)", self.cap, self.gate, case.progs, case.sched, n, n);
+        out.count(&format!("race buffer {}", self.cap.map_or("none".to_string(), |c| if c > 4 { ">4".to_string() } else { c.to_string() })));
+        out.count(if self.gate { "race gate open" } else { "race gate closed" });
+        let wp0 = self.wake_pending;
+        // handles are registered up front (long-lived), the calls happen on the emitter threads
+        let handles: Vec<Vec<metrics::Counter>> = case.progs.iter().map(|ids| ids.iter().map(|id| self.rec.register_counter(&race_key(*id), &MD)).collect()).collect();
+        ctl.reset(n);
+        let mut threads = vec![];
+        for (i, hs) in handles.into_iter().enumerate() {
+            threads.push(std::thread::spawn(move || {
+                EM_ID.with(|c| c.set(Some(i)));
+                for h in hs {
+                    crate::alloc::arm_trap(TRAP_LEN);
+                    h.increment(1);
+                    crate::alloc::disarm_trap();
+                }
+                EM_ID.with(|c| c.set(None));
+                emctl().finish(i);
+            }));
+        }
+        let mut hung: Option<String> = None;
+        for i in 0..n {
+            if ctl.wait_parked(i).is_none() {
+                hung = Some(format!("emitter {} did not reach its first yield point", i));
+            }
+        }
+        for i in 0..n {
+            match ctl.pc(i) {
+                Some("tcp:should_send") | None => {}
+                Some(p) => {
+                    if hung.is_none() {
+                        hung = Some(format!("emitter {} reached {:?} first: the yield point tcp:should_send is missing (is hook-C11.patch applied to the repository?)", i, p));
+                    }
+                }
+            }
+        }
+        let progs_tok = list(case.progs.iter().map(|ids| show_ids(ids)));
+        out.op(&format!("tcpq init {} {} {} {}", self.cap.map_or("~".to_string(), |c| c.to_string()), self.gate as u8, wp0 as u8, progs_tok), "ok");
+        let mut delivered_before = self.delivered_all.len();
+        let case_start = delivered_before;
+        let mut steps = 0usize;
+        let mut do_step = |x: &mut RaceExporter, tid: usize, out: &mut Out, hung: &mut Option<String>| {
+            if hung.is_some() {
+                return;
+            }
+            if tid < n {
+                let p0 = ctl.pc(tid).unwrap_or("?");
+                let p1 = if p0 == "done" { "done" } else { ctl.grant(tid).unwrap_or("?") };
+                if p1 == "?" {
+                    *hung = Some(format!("emitter {} did not reach its next yield point after {}", tid, p0));
+                }
+                if p0 == "tcp:wake" {
+                    x.wake_pending = true;
+                }
+                out.count(&format!("race emitter step at {}", p0));
+                out.op(&format!("tcpq step e{}", tid), &format!("e{} {}>{} {}", tid, p0, p1, x.tail()));
+            } else {
+                match x.t_step() {
+                    Ok(what) => {
+                        out.count(&format!("race transport step {}", what.split(':').next().unwrap_or("")));
+                        out.op("tcpq step t", &format!("t {} {}", what, x.tail()));
+                    }
+                    Err(e) => *hung = Some(e),
+                }
+            }
+        };
+        for tid in case.sched.iter() {
+            do_step(self, (*tid).min(n), out, &mut hung);
+            steps += 1;
+        }
+        // drain: emitters to completion (lowest id first), then the transport while it can move
+        for i in 0..n {
+            let mut guard = 0;
+            while hung.is_none() && ctl.pc(i) != Some("done") && guard < 64 {
+                do_step(self, i, out, &mut hung);
+                guard += 1;
+            }
+        }
+        let total: usize = case.progs.iter().map(|p| p.len()).sum();
+        let mut guard = 0;
+        while hung.is_none() && (self.in_loop || self.wake_pending) && guard < 3 * total + 8 {
+            do_step(self, n, out, &mut hung);
+            guard += 1;
+        }
+        let _ = (steps, &mut delivered_before);
+        let all_done = (0..n).all(|i| ctl.pc(i) == Some("done"));
+        let quiescent = all_done && !self.in_loop && !self.wake_pending;
+        let q = self.qlen();
+        out.op(
+            "tcpq end",
+            &format!("{} tpc={} delivered={} quiescent={}", self.tail(), if self.in_loop { "loop" } else { "idle" }, show_ids(&self.delivered_all[case_start..]), quiescent as u8),
+        );
+        if total >= 2 && n >= 2 {
+            out.nontrivial();
+        }
+        if let Some(h) = &hung {
+            fail(out, &script, "exporter stopped serving", format!("race case: {}", h));
+            self.broken = Some(h.clone());
+            // let everything go so that no thread stays parked for ever
+            for i in 0..n {
+                let mut guard = 0;
+                while ctl.pc(i) != Some("done") && guard < 64 {
+                    ctl.grant(i);
+                    guard += 1;
+                }
+            }
+        } else if quiescent && q > 0 {
+            // nothing can move and the channel still holds events: confirm on the free-running thread
+            let gate = tgate();
+            gate.release(HOLD_IDLE);
+            // (the first confirmations wait long; once the defect is established the others may be brief)
+            let wait = if CONFIRMED_STUCK.load(Ordering::SeqCst) < 2 { STUCK_WAIT } else { Duration::from_millis(400) };
+            let deadline = Instant::now() + wait;
+            while self.qlen() > 0 && Instant::now() < deadline {
+                std::thread::sleep(Duration::from_millis(2));
+            }
+            if self.qlen() > 0 {
+                CONFIRMED_STUCK.fetch_add(1, Ordering::SeqCst);
+                let accepted: Vec<u64> = case.progs.iter().flatten().copied().filter(|id| !self.delivered_all[case_start..].contains(id)).collect();
+                fail(
+                    out,
+                    &script,
+                    "metric enqueued but the transport thread is never woken (lost wake-up)",
+                    format!(
+                        "every emitter has returned, the transport thread is blocked in poll, yet {} event(s) sit in the channel and stayed there for {:?} with the thread running freely; emitted and never fanned out: {:?}; client connected and reading: {}",
+                        self.qlen(),
+                        wait,
+                        accepted,
+                        self.gate
+                    ),
+                );
+            } else {
+                out.count("race: channel drained although no wake-up was observed");
+            }
+            if let Err(e) = self.sync() {
+                self.broken = Some(e);
+            }
+            // what the resync fanned out belongs to no later case
+            let g = log().recs.lock().unwrap();
+            let late: Vec<Vec<u8>> = g.iter().filter(|(p, _)| *p == self.port).filter_map(|(_, r)| if let Record::Fanout { frames } = r { Some(frames.clone()) } else { None }).flatten().collect();
+            drop(g);
+            for id in race_ids(&late) {
+                if !self.delivered_all.contains(&id) {
+                    self.delivered_all.push(id);
+                }
+            }
+        } else if !quiescent && self.cap != Some(0) {
+            // the bounded drain did not reach quiescence (only possible if the model of the loop is wrong)
+            if let Err(e) = self.sync() {
+                self.broken = Some(e);
+            }
+        }
+        for t in threads {
+            if hung.is_none() {
+                let _ = t.join();
+            }
+        }
+        log().recs.lock().unwrap().clear();
+    }
+
+    /// stops the exporter; the reading client must have received exactly the fanned-out batches, in order
+    fn finish(mut self, out: &mut Out) {
+        let log = log();
+        tgate().release(0);
+        verif::request_stop(self.port);
+        self.rec.describe_counter(KeyName::from("__stop__"), None, SharedString::from(""));
+        let stopped = log.wait(WAIT, |recs| if recs.iter().any(|(p, r)| *p == self.port && *r == Record::Stop) { Some(()) } else { None }).is_some();
+        if let Some(mut c) = self.client.take() {
+            if !stopped {
+                if let Some(s) = c.stream.take() {
+                    let _ = s.shutdown(std::net::Shutdown::Both);
+                }
+            }
+            if let Some(h) = c.reader.take() {
+                let _ = h.join();
+            }
+            if stopped && self.broken.is_none() {
+                out.case(&format!("race stream buffer_size={:?}: bytes received by the reading client", self.cap));
+                let data = c.data.lock().unwrap().clone();
+                let (evs, rest, err) = dec_stream(&data);
+                let got: Vec<u64> = evs.iter().filter_map(|e| if let Ev::Metric { labels, .. } = e { labels.get("#").and_then(|s| s.parse().ok()) } else { None }).collect();
+                if err.is_some() || rest != 0 || got != self.delivered_all {
+                    fail(
+                        out,
+                        &format!("race stream buffer_size={:?}", self.cap),
+                        "metric missing for a connected, reading client",
+                        format!("the reading client of the race stream received {} metric frames ({:?} trailing bytes, decode error {:?}), the transport fanned out {}; first difference at position {:?}", got.len(), rest, err, self.delivered_all.len(), got.iter().zip(self.delivered_all.iter()).position(|(a, b)| a != b)),
+                    );
+                }
+                out.count_n("race frames received by the reading client", got.len() as u64);
+                if self.cap == Some(0) && got.is_empty() {
+                    // genuine defect, recorded as a known finding (known_findings.json: K-C11-zero-buffer)
+                    out.oracle_fail(
+                        "K-C11-zero-buffer: buffer_size(Some(0)) never delivers a metric to a connected, reading client",
+                        "zero-capacity channel and zero batch limit: emissions made while a client is connected and reading are never fanned out and the transport thread keeps waking itself (Lean: C11.zero_buffer_never_delivers, C11.zero_buffer_spins)",
+                    );
+                }
+            }
+        }
+        log.recs.lock().unwrap().clear();
+    }
+}
+
+fn race_corpus() -> Vec<(Option<usize>, bool, Vec<Vec<usize>>, Vec<usize>, &'static str)> {
+    // (buffer, gate, metrics per emitter, schedule, name); thread ids: emitters 0.., transport = #emitters
+    vec![
+        // emitter 1 passes the gate (and anything it samples there) while metric 0 is still queued; the transport
+        // drains and goes back to poll; only then emitter 1 enqueues
+        (Some(1024), true, vec![vec![1], vec![1]], vec![0, 0, 0, 2, 1, 2, 2, 1], "enqueue-after-transport-went-idle"),
+        // the transport handles a wake-up between an emitter's second and third step
+        (Some(1024), true, vec![vec![1]], vec![0, 0, 1, 1, 0], "transport-runs-between-send-and-wake"),
+        (Some(1024), true, vec![vec![2], vec![1]], vec![0, 1, 0, 1, 2, 0, 2, 1, 2, 0, 2, 0, 0, 2, 2], "two-emitters-interleaved"),
+        (Some(1), true, vec![vec![2], vec![2]], vec![0, 0, 1, 1, 0, 2, 2, 1, 0, 0, 2, 2, 1], "buffer-1-channel-full-and-batch-limit"),
+        (Some(2), true, vec![vec![3]], vec![0, 0, 0, 0, 0, 0, 0, 0, 0, 1, 1, 1, 1], "buffer-2-self-wake"),
+        (None, true, vec![vec![2], vec![2], vec![1]], vec![0, 1, 2, 0, 1, 2, 3, 0, 1, 2, 3, 3], "no-limit-three-emitters"),
+        (Some(1024), false, vec![vec![2], vec![1]], vec![0, 1, 2, 0], "gate-closed"),
+        (Some(0), true, vec![vec![1]], vec![0, 0, 0, 1, 1, 1, 1], "buffer-0 (nothing is ever delivered: see REPORT)"),
+    ]
+}
+
+fn race_stream(cfg: &Cfg, out: &mut Out) {
+    let root = Rng::new(cfg.seed ^ 0x5ace);
+    metrics::verif::set_hook(Some(em_park));
+    crate::alloc::set_trap_fn(Some(em_trap));
+    let mut next_id = 0u64;
+    let mut mk = |tag: String, shape: &[usize], sched: Vec<usize>| -> RaceCase {
+        let progs = shape
+            .iter()
+            .map(|k| {
+                (0..*k)
+                    .map(|_| {
+                        next_id += 1;
+                        next_id
+                    })
+                    .collect()
+            })
+            .collect();
+        RaceCase { tag, progs, sched }
+    };
+    let configs: Vec<(Option<usize>, bool)> = vec![(Some(1024), true), (None, true), (Some(1), true), (Some(2), true), (Some(1024), false), (Some(0), true)];
+    let n_random = if cfg.thorough { 260 } else { 36 };
+    for (ci, (cap, gate)) in configs.iter().enumerate() {
+        let mut cases: Vec<RaceCase> = vec![];
+        for (c, g, shape, sched, name) in race_corpus() {
+            if c == *cap && g == *gate {
+                let shape: Vec<usize> = shape.iter().map(|v| v[0]).collect();
+                cases.push(mk(format!("race corpus {}", name), &shape, sched));
+            }
+        }
+        let weight = match (cap, gate) {
+            (Some(0), _) => 0,
+            (_, false) => 1,
+            (Some(1024), true) => 6,
+            _ => 3,
+        };
+        for i in 0..(n_random * weight / 6) {
+            let mut r = root.fork((ci * 100_000 + i) as u64);
+            let n = r.range(1, 3);
+            let shape: Vec<usize> = (0..n).map(|_| r.range(1, 2)).collect();
+            let total: usize = shape.iter().sum();
+            let len = r.range(0, 4 * total + 6);
+            // the transport gets a third of the steps, in runs (a thread that is preempted stays preempted for a while)
+            let mut sched = vec![];
+            while sched.len() < len {
+                let t = if r.chance(1, 3) { n } else { r.below(n) };
+                for _ in 0..r.range(1, 3) {
+                    sched.push(t);
+                }
+            }
+            cases.push(mk(format!("race seed={} cfg={} i={}", cfg.seed, ci, i), &shape, sched));
+        }
+        if cfg.thorough && *cap == Some(1024) && *gate {
+            // every schedule of length 8 over two emitters with one metric each and the transport
+            for code in 0..6561usize {
+                let mut c = code;
+                let sched: Vec<usize> = (0..8).map(|_| { let d = c % 3; c /= 3; d }).collect();
+                cases.push(mk(format!("race exhaustive 2x1 #{}", code), &[1, 1], sched));
+            }
+        }
+        if cases.is_empty() {
+            continue;
+        }
+        match RaceExporter::start(*cap, *gate) {
+            Ok(mut x) => {
+                for case in cases.iter() {
+                    if x.broken.is_some() {
+                        break;
+                    }
+                    x.run_case(case, out);
+                }
+                x.finish(out);
+            }
+            Err(e) => {
+                out.case(&format!("race stream buffer_size={:?} gate={}", cap, gate));
+                fail(out, &format!("race stream buffer_size={:?}", cap), "exporter does not serve", format!("race stream could not be set up: {}", e));
+                tgate().release(0);
+            }
+        }
+    }
+    tgate().release(0);
+    metrics::verif::set_hook(None);
+    crate::alloc::set_trap_fn(None);
+}
+
 pub fn run(cfg: &Cfg, out: &mut Out) {
+    race_stream(cfg, out);
     let root = Rng::new(cfg.seed);
     for (name, buffer, script) in corpus() {
         session(&format!("corpus {}", name), buffer, &script, out);
